@@ -88,7 +88,7 @@ JWE_OCT_ALGS = ["dir", "A128KW", "A192KW", "A256KW", "A128GCMKW", "A256GCMKW", "
                 "A128GCM", "A256GCM", "A128CBC-HS256", "A256CBC-HS512", "DEF"]
 
 
-JSON_ALGS = ["dir", "A128KW", "A128GCM", "DEF"]
+JSON_ALGS = ["dir", "A128KW", "A128GCM"]
 
 
 def _jwe_token(hb):
@@ -97,7 +97,7 @@ def _jwe_token(hb):
 
 def h_jwe_compact_bytes():
     key, k = oct_key("k")
-    out = call(jwe.decrypt_compact, sym_bytes("token"), key, ["dir", "A128KW", "A128GCM", "A128CBC-HS256"])
+    out = call(jwe.decrypt_compact, sym_bytes("token"), key, ["dir", "A128GCM"])
     check(out.raised_only(JoseError, ValueError), "jwe.decrypt_compact(bytes): only JoseError / ValueError escape")
 
 
@@ -113,10 +113,10 @@ def _jwe_header_json(name, algs):
     return h
 
 
-h_jwe_compact_header_json_dir = _jwe_header_json("dir", ["dir", "A128GCM", "A256GCM", "A128CBC-HS256", "DEF"])
-h_jwe_compact_header_json_kw = _jwe_header_json("kw", ["A128KW", "A256KW", "A128GCM", "DEF"])
-h_jwe_compact_header_json_gcmkw = _jwe_header_json("gcmkw", ["A128GCMKW", "A256GCMKW", "A128GCM"])
-h_jwe_compact_header_json_pbes2 = _jwe_header_json("pbes2", ["PBES2-HS256+A128KW", "PBES2-HS512+A256KW", "A128GCM"])
+h_jwe_compact_header_json_dir = _jwe_header_json("dir", ["dir", "A128GCM", "A128CBC-HS256", "DEF"])
+h_jwe_compact_header_json_kw = _jwe_header_json("kw", ["A128KW", "A128GCM"])
+h_jwe_compact_header_json_gcmkw = _jwe_header_json("gcmkw", ["A128GCMKW", "A128GCM"])
+h_jwe_compact_header_json_pbes2 = _jwe_header_json("pbes2", ["PBES2-HS256+A128KW", "A128GCM"])
 
 
 def h_jwe_compact_ecdh_header_json():
